@@ -96,7 +96,8 @@ fn base_data() -> Vec<DataDef> {
 }
 
 fn int21_02(thorough: bool) -> Vec<Case> {
-    let dls: Vec<u32> = if thorough { (0..256).collect() } else { vec![0, 7, 9, 0x0A, 0x0D, 0x20, 0x41, 0x7E, 0x7F, 0x80, 0xE9, 0xFF] };
+    let _ = thorough;
+    let dls: Vec<u32> = (0..256).collect();
     let mut v = Vec::new();
     for dl in dls {
         for al in [0x00u32, 0x55] {
@@ -153,7 +154,7 @@ fn int21_0a(thorough: bool) -> Vec<Case> {
         (0xFFF0, 0x00F8, "capacity 5 ends at 0xFFFFF"),
         (0xFFFF, 0xFFFF, "header split across the offset wrap at the top segment"),
     ];
-    let caps: Vec<u32> = if thorough { vec![0, 1, 2, 5, 16, 254, 255] } else { vec![0, 1, 5, 255] };
+    let caps: Vec<u32> = if thorough { vec![0, 1, 2, 3, 4, 5, 6, 7, 16, 254, 255] } else { vec![0, 1, 2, 5, 16, 255] };
     for (ds, dx, pname) in places.iter() {
         for cap in caps.iter() {
             for (lines, raw, sname) in stdin_shapes(*cap as usize) {
@@ -225,8 +226,8 @@ fn int21_0a_utf8() -> Vec<Case> {
 
 fn int10_0a(thorough: bool) -> Vec<Case> {
     let mut v = Vec::new();
-    let als: Vec<u32> = if thorough { vec![0x41, 0x00, 0x0A, 0x20, 0x7F, 0x80, 0xE9, 0xFF, 0x09, 0x0D] } else { vec![0x41, 0x00, 0x0A, 0x80, 0xFF] };
-    let cxs: Vec<u32> = if thorough { vec![0, 1, 2, 5, 80, 300, 4096, 0xFFFF] } else { vec![0, 1, 5, 300] };
+    let als: Vec<u32> = if thorough { (0..256).collect() } else { vec![0x41, 0x00, 0x0A, 0x20, 0x7F, 0x80, 0xE9, 0xFF, 0x09, 0x0D] };
+    let cxs: Vec<u32> = if thorough { vec![0, 1, 2, 5, 80, 300, 4096, 0xFFFF] } else { vec![0, 1, 2, 5, 300, 4096] };
     for al in als.iter() {
         for cx in cxs.iter() {
             let mut code = vec![label("start")];
@@ -244,7 +245,7 @@ fn int10_0a(thorough: bool) -> Vec<Case> {
 
 fn int10_13(thorough: bool) -> Vec<Case> {
     let mut v = Vec::new();
-    let dls: Vec<u32> = if thorough { vec![0, 1, 5, 79, 255] } else { vec![0, 1, 5, 255] };
+    let dls: Vec<u32> = if thorough { vec![0, 1, 2, 5, 79, 254, 255] } else { vec![0, 1, 5, 79, 255] };
     let cxs: Vec<u32> = if thorough { vec![0, 1, 5, 39, 300, 4096] } else { vec![0, 1, 5, 39, 300] };
     let places: Vec<(u16, u16, &str)> = vec![
         (0x0020, 0x0000, "text at 0x200"),
@@ -426,7 +427,7 @@ pub fn run(tier: &Tier) -> i32 {
     }
     let mut cov = Coverage::default();
     cov.exhaustive = true;
-    cov.rule = "every run is the real binary with a scripted stdin (pipe closed after the script). INT 21h/02: DL over 12 (thorough: all 256) values x 2 prior AL. INT 21h/01: 9 stdin shapes (closed, empty line, short, exactly capacity, longer, no trailing newline, two lines, 300 characters, UTF-8) x 2 prior AL, followed by a second read and an echo. INT 21h/0Ah: 5 buffer placements (low, offset wrap at 16 bits, crossing 2^20, ending exactly at 0xFFFFF, header split by the wrap) x capacities {0,1,5,255} (thorough: 7 values) x the 9 stdin shapes, the buffer surrounded by 0xEE markers; plus a line of 1-, 2-, 3- and 4-byte characters cut by every capacity 0..length+1 (the cut falls inside a character). INT 10h/0Ah: AL x CX lattice (thorough up to CX=65535). INT 10h/13h: 5 (ES,BP) placements incl. strings crossing 2^20 and BP+i wrapping at 16 bits x DL x CX. Every AH value 0..255 other than the supported ones for both interrupts, at the first / a middle / the last line. All 25 ordered pairs of services x 3 stdin scripts. After each service the program prints all registers, the flags, the marker window around the buffer, the first 48 and the last 48 bytes of memory; service output is matched byte for byte and every printed field against the reference state".into();
+    cov.rule = "every run is the real binary with a scripted stdin (pipe closed after the script). INT 21h/02: all 256 DL values x 2 prior AL. INT 21h/01: 9 stdin shapes (closed, empty line, short, exactly capacity, longer, no trailing newline, two lines, 300 characters, UTF-8) x 2 prior AL, followed by a second read and an echo. INT 21h/0Ah: 5 buffer placements (low, offset wrap at 16 bits, crossing 2^20, ending exactly at 0xFFFFF, header split by the wrap) x capacities {0,1,2,5,16,255} (thorough: 11 values) x the 9 stdin shapes, the buffer surrounded by 0xEE markers; plus a line of 1-, 2-, 3- and 4-byte characters cut by every capacity 0..length+1 (the cut falls inside a character). INT 10h/0Ah: AL x CX lattice (thorough up to CX=65535). INT 10h/13h: 5 (ES,BP) placements incl. strings crossing 2^20 and BP+i wrapping at 16 bits x DL x CX. Every AH value 0..255 other than the supported ones for both interrupts, at the first / a middle / the last line. All 25 ordered pairs of services x 3 stdin scripts. After each service the program prints all registers, the flags, the marker window around the buffer, the first 48 and the last 48 bytes of memory; service output is matched byte for byte and every printed field against the reference state".into();
     cov.bounds = json!({"groups": groups.iter().map(|(n, k)| json!({"group": n, "runs": k})).collect::<Vec<_>>(), "service_output_bytes_matched": out_bytes.load(Ordering::Relaxed), "unsupported_reports_checked": unsup.load(Ordering::Relaxed), "cases_conforming_only_in_dos_encoding": dos_mode_used.load(Ordering::Relaxed), "tier": tier.name()});
     cov.assumptions = common_assumptions();
     cov.assumptions.push("characters >= 0x80 may be written as the raw byte or as the UTF-8 encoding of the same code point".into());
